@@ -77,6 +77,14 @@ SIGNIFICANT_STD = ("::eq", "::ne", "::lt", "::le", "::gt", "::ge", "::cmp", "::s
                    "::start_bound", "::end_bound", "Option::<T>::take", "Option::<T>::filter", "FnMut::call_mut", "::to_vec", "mem::transmute")
 
 
+def _new_mode_enum(F, adt):
+    from .normalize import pinned
+    a = F.adts.get(adt)
+    if a is None or a["kind"] != "Enum" or any(v["fields"] for v in a["variants"]):
+        return False
+    return adt not in pinned()["enums"]
+
+
 def _A(role):
     from .common import A
     return A(role)
@@ -100,6 +108,10 @@ def skeleton(body, rename=lambda s: s):
             if rv["rv"] == "bin" and rv["op"] in CMP:
                 out.append((("cmp", rename(rv["op"])), Site(bb, i)))
             elif rv["rv"] == "agg" and rv["ak"] == "adt" and not rv["adt"].startswith(("std::", "core::", "alloc::")):
+                if not rv.get("ops") and _new_mode_enum(body.facts, rv["adt"]):
+                    # a constant of a field-less enum the pinned tree does not have (a direction / side selector handed
+                    # to a shared helper): what it selects is compared through the helper's spliced, constant-pruned arms
+                    continue
                 out.append((("agg", rename(rv["adt"].split("::")[-1]), rename(rv["variant"])), Site(bb, i)))
             elif rv["rv"] == "cast" and rv["ck"].startswith("Transmute") and not st["span"].get("macros"):
                 out.append((("transmute",), Site(bb, i)))
